@@ -143,10 +143,54 @@ def show(e, depth=0):
     return 'other(%s)' % (e[1] if len(e) > 1 else '')
 
 
-def walk(e):
-    """yield every sub-expression (pre-order)"""
+def _subst(e, names, args, depth=0):
+    """replace ('var', p) by args[names[p]] throughout an expression"""
+    if depth > 40:
+        return e
+    k = e[0]
+    d = depth + 1
+    if k in ('var', 'mvar'):
+        if e[1] in names and names[e[1]] < len(args):
+            return args[names[e[1]]]
+        return e
+    if k in ('field',):
+        b = _subst(e[1], names, args, d)
+        if b[0] == 'agg' and b[1] == 'tuple' and str(e[2]).isdigit() and int(e[2]) < len(b[4]):
+            return b[4][int(e[2])][1]
+        return (k, b) + tuple(e[2:])
+    if k in ('variant', 'discr', 'len', 'await', 'try'):
+        return (k, _subst(e[1], names, args, d)) + tuple(e[2:])
+    if k == 'unop':
+        return (k, e[1], _subst(e[2], names, args, d))
+    if k == 'index':
+        return (k, _subst(e[1], names, args, d), _subst(e[2], names, args, d))
+    if k == 'call':
+        info = e[4]
+        if info.get('inl') is not None:
+            info = _Info(info)
+            info['inl'] = _subst(info['inl'], names, args, d)
+        return (k, e[1], tuple(_subst(a, names, args, d) for a in e[2]), e[3], info)
+    if k == 'binop':
+        return (k, e[1], _subst(e[2], names, args, d), _subst(e[3], names, args, d))
+    if k == 'cast':
+        return (k, _subst(e[1], names, args, d), e[2])
+    if k == 'agg':
+        return (k, e[1], e[2], e[3], tuple((n, _subst(x, names, args, d)) for n, x in e[4]))
+    if k == 'phi':
+        return (k, tuple(_subst(a, names, args, d) for a in e[1]))
+    if k == 'closure':
+        return (k, e[1], tuple(_subst(a, names, args, d) for a in e[2]))
+    return e
+
+
+def walk(e, inl=True):
+    """yield every sub-expression (pre-order); the inlined return expression of a small local
+    helper is visited as part of its call node (unless inl=False)"""
     yield e
     k = e[0]
+    if inl and k == 'call' and e[4].get('inl') is not None:
+        for x in walk(e[4]['inl'], inl):
+            yield x
     if k in ('field', 'variant', 'unop', 'discr', 'len', 'await', 'try'):
         sub = [e[1]] if k != 'unop' else [e[2]]
     elif k == 'index':
@@ -168,7 +212,7 @@ def walk(e):
     else:
         sub = []
     for s in sub:
-        for x in walk(s):
+        for x in walk(s, inl):
             yield x
 
 
@@ -400,6 +444,9 @@ class Fn:
         info = {'name': t.get('name'), 'self_ty': t.get('self_ty'), 'trait': t.get('trait'),
                 'resolved': t.get('resolved'), 'local': t.get('local', False),
                 'full': t.get('callee_full'), 'gargs': t.get('gargs', [])}
+        inl = self._inline_return(t, args, seen)
+        if inl is not None:
+            info['inl'] = inl
         e = ('call', callee, args, bb, _Info(info))
         # transparent wrappers
         if callee in TRANSPARENT_CALLS and args:
@@ -411,6 +458,55 @@ class Fn:
         if callee == 'std::ops::Try::branch' and args:
             return ('call', 'branch', (args[0],), bb, _Info(info))
         return e
+
+    _INL_DEPTH = [0]
+
+    def _inline_return(self, t, args, seen):
+        """return expression of a small, loop-free, synchronous crate-local callee with its parameters
+        replaced by the argument expressions (so that extracting a helper does not hide a provenance)"""
+        F = self.facts
+        tgt = t.get('resolved') if t.get('resolved') in F.fns else t.get('callee')
+        if tgt not in F.fns or tgt == self.path:
+            return None
+        g = F.fns[tgt]
+        if g.derived or g.coroutine or sum(1 for b in g.blocks if not b.get('cleanup')) > 40 or Fn._INL_DEPTH[0] >= 2:
+            return None
+        if F.is_async(tgt) or g.has_loop():
+            return None
+        Fn._INL_DEPTH[0] += 1
+        try:
+            r = g.expr_local(0)
+        finally:
+            Fn._INL_DEPTH[0] -= 1
+        if r[0] in ('tmp',) or (r[0] == 'var' and r[1] is None):
+            return None
+        names = {}
+        for v in g.raw['vars']:
+            if 'arg' in v and 'place' in v and not v['place'].get('p'):
+                names[v['n']] = v['arg'] - 1
+        return _subst(r, names, args)
+
+    def has_loop(self):
+        if hasattr(self, '_loop'):
+            return self._loop
+        color = {}
+        loop = [False]
+
+        def dfs(b):
+            color[b] = 1
+            for n in self.succs(b):
+                if self.blocks[n].get('cleanup'):
+                    continue
+                if color.get(n) == 1:
+                    loop[0] = True
+                elif n not in color:
+                    dfs(n)
+            color[b] = 2
+        import sys
+        sys.setrecursionlimit(10000)
+        dfs(0)
+        self._loop = loop[0]
+        return self._loop
 
     def expr_operand(self, op, seen=frozenset()):
         if 'c' in op:
@@ -463,6 +559,10 @@ class Fn:
                     continue
                 if e[0] == 'variant' and e[1][0] == 'call' and e[1][1] == 'branch' and e[2] == 'Continue':
                     e = ('try', e[1][2][0])
+                    continue
+                if e[0] == 'agg' and e[1] == 'tuple' and nm.isdigit() and int(nm) < len(e[4]):
+                    # component of a tuple built in place: `match (a, b) { (x, y) => .. }` binds x to a
+                    e = e[4][int(nm)][1]
                     continue
                 e = ('field', e, nm, pr.get('adt'))
             elif k == 'downcast':
@@ -691,10 +791,9 @@ class Fn:
                     continue
                 env2 = env
                 if dl is not None and ('d', dl[1]) not in env:
-                    vals = [v for v, b2 in t['ts'] if b2 == n]
-                    if len(vals) == 1 and n != t['o']:
-                        env2 = dict(env)
-                        env2[('d', dl[1])] = vals[0]
+                    env2 = _refine_discr(env, t, dl[1], n)
+                    if env2 is None:
+                        continue
                 work.append((n, tuple(sorted(env2.items(), key=repr))))
         return reach
 
@@ -738,8 +837,9 @@ class Fn:
                 f = b
         return (t['o'], f)
 
-    def variant_edges(self, bb):
-        """for a switch on discr(x): {variant_name: target} using the ADT tables"""
+    def variant_edges(self, bb, fill=False):
+        """for a switch on discr(x): {variant_name: target} using the ADT tables; with fill, variants
+        that take the otherwise edge (`if let`, `matches!`, `_ =>`) are listed with that target too"""
         e, ts, o = self.cond(bb)
         if e[0] != 'discr':
             return None
@@ -749,6 +849,9 @@ class Fn:
             out[names.get(v, str(v))] = b
         if not self.is_unreachable_block(o):
             out['_'] = o
+            if fill:
+                for v, n in names.items():
+                    out.setdefault(n, o)
         return out
 
     def outcome_edges(self, call_bb):
@@ -797,6 +900,9 @@ class Fn:
                 if via[0] in ('await', 'try'):
                     via = via[1]
                 elif via[0] == 'call' and via[1] in ('branch', 'poll'):
+                    via = via[2][0]
+                elif via[0] == 'call' and via[4].get('name') in ('map_err', 'map') and via[2] and \
+                        (via[1].startswith('std::result::Result') or via[1].startswith('std::option::Option')):
                     via = via[2][0]
                 elif via[0] == 'call' and via[4].get('name') in ('is_ok', 'is_some') and via[2]:
                     pol = True
@@ -1397,6 +1503,30 @@ def deps(f, e, depth=0, seen=None):
 # ------------------------------------------------------------------------------------------
 # acyclic feasible path enumeration with per-path facts (rule kind K7 on loop bodies)
 # ------------------------------------------------------------------------------------------
+def _refine_discr(env, t, L, n):
+    """environment after taking the edge to block n of the switch t on discriminant(L): a value edge
+    records the variant, the otherwise edge records the variants it excludes (`if let`, `matches!`,
+    `_ =>`); None when the edge contradicts what an earlier switch on the same value established"""
+    excl = env.get(('nd', L), ())
+    vals = [v for v, b2 in t['ts'] if b2 == n]
+    if n != t['o']:
+        live = [v for v in vals if v not in excl]
+        if not live:
+            return None
+        if len(live) == 1:
+            e2 = dict(env)
+            e2[('d', L)] = live[0]
+            e2.pop(('nd', L), None)
+            return e2
+        return env
+    # otherwise edge (possibly shared with some values)
+    if vals:
+        return env
+    e2 = dict(env)
+    e2[('nd', L)] = tuple(sorted(set(excl) | {v for v, _ in t['ts']}))
+    return e2
+
+
 def enumerate_paths(f, start, stops, limit=20000):
     """all feasible acyclic block paths from `start` that end when a block of `stops` (or a
     return / dead end) is reached.  Feasibility = constant-temporary and discriminant tracking of
@@ -1440,10 +1570,9 @@ def enumerate_paths(f, start, stops, limit=20000):
                 continue
             e3 = env2
             if dl is not None and ('d', dl) not in env2:
-                vals = [v for v, b2 in t['ts'] if b2 == n]
-                if len(vals) == 1 and n != t['o']:
-                    e3 = dict(env2)
-                    e3[('d', dl)] = vals[0]
+                e3 = _refine_discr(env2, t, dl, n)
+                if e3 is None:
+                    continue
             rec_(n, e3, path)
     rec_(start, {}, [])
     return out
@@ -1567,3 +1696,176 @@ def _expr_with(f, path, what, pos, depth):
             return ('cast', opnd(rv['op']), rv['ty'])
         return f.expr_rvalue(rv)
     return f.expr_call(what[1])
+
+
+# ------------------------------------------------------------------------------------------
+# MIR-level inlining of small crate-local callees (so that "extract helper" keeps a rule's view)
+def _renumber(o, loff, boff, term=False):
+    if isinstance(o, list):
+        return [_renumber(x, loff, boff) for x in o]
+    if not isinstance(o, dict):
+        return o
+    out = {}
+    for k, v in o.items():
+        if k in ('sp', 'fsp'):
+            out[k] = v
+        elif k == 'l' and isinstance(v, int):
+            out[k] = v + loff
+        else:
+            out[k] = _renumber(v, loff, boff)
+    return out
+
+
+def _renumber_term(t, loff, boff):
+    t2 = _renumber(t, loff, boff)
+    for k in ('t', 'o', 'imag'):
+        if isinstance(t.get(k), int):
+            t2[k] = t[k] + boff
+    if 'ts' in t:
+        t2['ts'] = [[v, b + boff] for v, b in t['ts']]
+    return t2
+
+
+def inlinable(F, g, max_blocks=60):
+    """a callee whose body can be spliced into its caller: crate-local, synchronous, not derived, small"""
+    return not (g.derived or g.coroutine or F.is_async(g.path) or
+                sum(1 for b in g.blocks if not b.get('cleanup')) > max_blocks)
+
+
+def inline_fn(F, f, select, depth=2):
+    """a copy of `f` in which every call to a crate-local function accepted by `select(callee)` is replaced by the
+    callee's body (locals and blocks renumbered, arguments assigned to the parameter locals, `return` turned into
+    an assignment to the call's destination).  Returns f itself when nothing was inlined."""
+    import copy
+    raw = None
+    for _ in range(depth):
+        cur = raw or f.raw
+        sites = []
+        for bi, b in enumerate(cur['blocks']):
+            t = b['t']
+            if t['k'] != 'call' or b.get('cleanup'):
+                continue
+            tgt = t.get('resolved') if t.get('resolved') in F.fns else t.get('callee')
+            if tgt in F.fns and tgt != f.path and inlinable(F, F.fns[tgt]) and select(F.fns[tgt]):
+                sites.append((bi, tgt))
+        if not sites:
+            break
+        if raw is None:
+            raw = copy.deepcopy(f.raw)
+        for bi, tgt in sites:
+            g = F.fns[tgt].raw
+            loff = len(raw['locals'])
+            boff = len(raw['blocks'])
+            raw['locals'].extend(copy.deepcopy(g['locals']))
+            for v in g['vars']:
+                if 'place' in v:
+                    v2 = {k: x for k, x in v.items() if k != 'arg'}
+                    v2['place'] = _renumber(v['place'], loff, boff)
+                    v2['inl'] = tgt
+                    raw['vars'].append(v2)
+            call = raw['blocks'][bi]
+            ct = call['t']
+            for b in g['blocks']:
+                nb = {'s': _renumber(b['s'], loff, boff), 'cleanup': b.get('cleanup', False), 'inl': tgt}
+                t = b['t']
+                if t['k'] == 'return':
+                    nb['s'] = nb['s'] + [{'k': 'assign', 'lhs': ct['dest'], 'rv': {'k': 'use', 'op': {'mv': {'l': loff}}},
+                                          'sp': t.get('sp')}]
+                    if 't' in ct:
+                        nb['t'] = {'k': 'goto', 't': ct['t'], 'sp': t.get('sp')}
+                    else:
+                        nb['t'] = {'k': 'unreachable', 'sp': t.get('sp')}
+                else:
+                    nb['t'] = _renumber_term(t, loff, boff)
+                raw['blocks'].append(nb)
+            for i, a in enumerate(ct.get('args', [])):
+                call['s'].append({'k': 'assign', 'lhs': {'l': loff + 1 + i}, 'rv': {'k': 'use', 'op': a}, 'sp': ct.get('sp')})
+            call['t'] = {'k': 'goto', 't': boff, 'sp': ct.get('sp'), 'inlined_call': tgt}
+    if raw is None:
+        return f
+    nf = Fn(F, raw)
+    nf.inlined_from = f
+    return nf
+
+
+
+# ------------------------------------------------------------------------------------------
+# iterator adaptor chains: the element a chain yields, as one expression over the source element
+ELEM = ('var', '$elem')
+
+
+def closure_param(cf, n=2):
+    return cf._argnames.get(n) or 'arg%d' % n
+
+
+def closure_result(cf):
+    """expression a (non-capturing-control-flow) closure returns: the value of its return place"""
+    return cf.expr_local(0)
+
+
+def some_payloads(cf):
+    """distinct payload expressions of the Option::Some values built in a closure body"""
+    seen = {}
+    for bi, si, e in agg_sites(cf, r'^std::option::Option$', 'Some'):
+        seen.setdefault(show(e[4][0][1]), e[4][0][1])
+    return list(seen.values())
+
+
+def compose_chain(F, f, e):
+    """for an iterator-adaptor chain expression `e` in `f` (e.g. collect(filter_map(filter_map(iter(src), c0), c1))):
+    returns (src_expr, elem_expr, adaptors) where elem_expr is what the chain yields per source element, written over the
+    placeholder ELEM (closure parameters substituted stage by stage; filter_map contributes the payload of its Some),
+    and adaptors is the list of adaptor names from the source outwards.  Raises AnchorMissing when a stage is not understood."""
+    stages = []
+    x = e
+    while True:
+        while x[0] == 'cast':
+            x = x[1]
+        if x[0] == 'mvar':
+            x = init_of(x)
+            continue
+        if x[0] != 'call' or not x[2]:
+            break
+        nm = x[4].get('name')
+        if nm in ('iter', 'into_iter', 'iter_mut', 'drain', 'values', 'keys'):
+            if x[2][0][0] == 'call' and x[2][0][4].get('name') in ('iter', 'into_iter', 'filter_map', 'map', 'filter', 'enumerate'):
+                x = x[2][0]
+                continue
+            stages.append((nm, None))
+            x = x[2][0]
+            break
+        clo = [a for a in x[2][1:] if a[0] == 'closure']
+        stages.append((nm, clo[0][1] if clo else None))
+        x = x[2][0]
+    src = x
+    stages.reverse()
+    elem = ELEM
+    names = []
+    for nm, clo in stages:
+        names.append(nm)
+        if nm in ('iter', 'into_iter', 'iter_mut', 'collect', 'filter', 'inspect', 'peekable', 'by_ref', 'cloned', 'copied', 'fuse',
+                  'rev', 'skip', 'take', 'step_by', 'skip_while', 'take_while', 'drain', 'values', 'keys', 'count', 'last', 'next'):
+            continue
+        if nm == 'enumerate':
+            elem = ('agg', 'tuple', None, None, (('0', ('var', '$index')), ('1', elem)))
+            continue
+        if nm in ('filter_map', 'map', 'flat_map', 'find_map') and clo:
+            cf = F.fn(clo)
+            if nm == 'map':
+                body = closure_result(cf)
+            else:
+                ps = some_payloads(cf)
+                if len(ps) != 1:
+                    raise AnchorMissing('%s closure %s yields %d different payloads' % (nm, clo, len(ps)))
+                body = ps[0]
+            elem = _subst(body, {closure_param(cf): 0}, [elem])
+            continue
+        raise AnchorMissing('adaptor %s in %s is not understood' % (nm, f.path))
+    return src, elem, names
+
+
+def param_root(f, e):
+    """True when expression e is rooted at a parameter of f"""
+    p = access_path(e) or ''
+    root = p.split('.')[0].split('<')[0].split('[')[0]
+    return any(v.get('n') == root and 'arg' in v for v in f.raw['vars']) or re.match(r'arg\d+$', root) is not None
